@@ -7,12 +7,13 @@ Record ops (T : Type) := mkOps {
   oopp : T -> T;  oabs : T -> T;  osqrt : T -> T;
   oconst : Z -> Z -> T;            (* numerator / denominator *)
   osin : T -> T; ocos : T -> T; otan : T -> T; oexp : T -> T; olog : T -> T; oatan : T -> T;
-  olt : T -> T -> bool; ole : T -> T -> bool
+  olt : T -> T -> bool; ole : T -> T -> bool;
+  opi : T
 }.
 Arguments oadd {T}. Arguments osub {T}. Arguments omul {T}. Arguments odiv {T}.
 Arguments oopp {T}. Arguments oabs {T}. Arguments osqrt {T}. Arguments oconst {T}.
 Arguments osin {T}. Arguments ocos {T}. Arguments otan {T}. Arguments oexp {T}.
-Arguments olog {T}. Arguments oatan {T}. Arguments olt {T}. Arguments ole {T}.
+Arguments olog {T}. Arguments oatan {T}. Arguments olt {T}. Arguments ole {T}. Arguments opi {T}.
 
 Definition ogt {T} (O : ops T) (a b : T) : bool := olt O b a.
 Definition oge {T} (O : ops T) (a b : T) : bool := ole O b a.
@@ -33,7 +34,7 @@ Definition Rops : ops R := {|
   oadd := Rplus; osub := Rminus; omul := Rmult; odiv := Rdiv; oopp := Ropp; oabs := Rbasic_fun.Rabs;
   osqrt := R_sqrt.sqrt; oconst := Rc;
   osin := sin; ocos := cos; otan := tan; oexp := exp; olog := ln; oatan := atan;
-  olt := Rltb; ole := Rleb |}.
+  olt := Rltb; ole := Rleb; opi := PI |}.
 
 (* ---- binary64 instance (transcendentals are not available: they return nan, and
         formulas that use them are validated through the IR evaluator / Interval) ---- *)
@@ -50,7 +51,7 @@ Definition Fops : ops float := {|
   oadd := PrimFloat.add; osub := PrimFloat.sub; omul := PrimFloat.mul; odiv := PrimFloat.div;
   oopp := PrimFloat.opp; oabs := PrimFloat.abs; osqrt := PrimFloat.sqrt; oconst := Fc;
   osin := Fnan; ocos := Fnan; otan := Fnan; oexp := Fnan; olog := Fnan; oatan := Fnan;
-  olt := PrimFloat.ltb; ole := PrimFloat.leb |}.
+  olt := PrimFloat.ltb; ole := PrimFloat.leb; opi := 0x1.921fb54442d18p+1%float |}.
 
 (* |a-b| <= tol * max(1,|b|), false on nan *)
 Definition Fclose (tol a b : float) : bool :=
@@ -58,5 +59,5 @@ Definition Fclose (tol a b : float) : bool :=
                 (PrimFloat.mul tol (if PrimFloat.ltb 1 (PrimFloat.abs b) then PrimFloat.abs b else 1)).
 
 Ltac unfold_ops :=
-  cbv [oadd osub omul odiv oopp oabs osqrt oconst osin ocos otan oexp olog oatan olt ole ogt oge
+  cbv [oadd osub omul odiv oopp oabs osqrt oconst osin ocos otan oexp olog oatan olt ole opi ogt oge
        opow Rops Rc Z.eqb Pos.eqb].
